@@ -46,6 +46,10 @@ import (
 
 func key(e int) int { return e / 100 }
 
+// namedInts: the functions are generic in the slice type (Slice ~[]T); lines with an odd number of
+// elements go through this named type.
+type namedInts []int
+
 func cmpFor(mode string) func(a, b int) int {
 	switch mode {
 	case "k":
@@ -138,6 +142,7 @@ func exec(in string) string {
 	}
 	var prelude string
 	postlude = ""
+	resetNested()
 	if len(f) >= 3 && f[0] == "P" { // calls made before the case (round4.go)
 		prelude, f = f[1], f[2:]
 	}
@@ -149,15 +154,21 @@ func exec(in string) string {
 			setPrelude(prelude)
 		}
 		switch f[0] {
-		case "V":
+		case "V", "T": // T: the V line once more, judged by the property alone (round5.go)
 			out = execViews(f)
-		case "L":
+		case "G":
+			out = execG(f)
+		case "L", "S": // S: the L line once more, judged by the property alone (round5.go)
 			if len(f) < 4 {
 				out = "?"
 				break
 			}
 			if f[1] == "g" {
 				out = typedLCS(tr.UnInts(f[2]), tr.UnInts(f[3]))
+				break
+			}
+			if lcsTyped5(f[1]) {
+				out = typedLCS5(f[1], tr.UnInts(f[2]), tr.UnInts(f[3]))
 				break
 			}
 			pre, spare := parseWin(f, 4)
@@ -171,10 +182,16 @@ func exec(in string) string {
 			as, bs := wa.w, wb.w
 			as0, bs0 := slices.Clone(wa.backing), slices.Clone(wb.backing)
 			var res []int
-			if f[1] == "e" {
+			switch {
+			case f[1] == "e" && (len(as)+len(bs))%2 == 1:
+				// every other line through a NAMED slice type (the functions are generic in Slice ~[]T)
+				res = slice.LCS(namedInts(as), namedInts(bs))
+			case f[1] == "e":
 				res = slice.LCS(as, bs)
-			} else {
-				res = slice.LCSFunc(as, bs, eqFor(f[1]))
+			case (len(as)+len(bs))%2 == 1:
+				res = slice.LCSFunc(namedInts(as), namedInts(bs), hookEq(eqFor(f[1])))
+			default:
+				res = slice.LCSFunc(as, bs, hookEq(eqFor(f[1])))
 			}
 			afterCall()
 			m := !slices.Equal(wa.backing, as0) || !slices.Equal(wb.backing, bs0)
@@ -201,14 +218,18 @@ func exec(in string) string {
 			vs0 := slices.Clone(wv.backing)
 			var res []int
 			switch {
+			case f[0] == "I" && f[1] == "n" && len(vs)%2 == 1: // a NAMED slice type
+				res = slice.LIS(namedInts(vs))
+			case f[0] == "N" && f[1] == "n" && len(vs)%2 == 1:
+				res = slice.LNDS(namedInts(vs))
 			case f[0] == "I" && f[1] == "n":
 				res = slice.LIS(vs)
 			case f[0] == "I":
-				res = slice.LISFunc(vs, cmpFor(f[1]))
+				res = slice.LISFunc(vs, hookCmp(cmpFor(f[1])))
 			case f[1] == "n":
 				res = slice.LNDS(vs)
 			default:
-				res = slice.LNDSFunc(vs, cmpFor(f[1]))
+				res = slice.LNDSFunc(vs, hookCmp(cmpFor(f[1])))
 			}
 			afterCall()
 			m := !slices.Equal(wv.backing, vs0)
@@ -247,7 +268,7 @@ var extFloat = []float64{math.NaN(), math.Inf(-1), -1.5, 0, 1.5, math.Inf(1)}
 var extString = []string{"", "0", "00", "1", "a", "ab", "b"}
 
 func typedMode(m string) bool {
-	return m == "b" || m == "h" || m == "f" || m == "s" || m == "g" || m == "j"
+	return m == "b" || m == "h" || m == "f" || m == "s" || m == "g" || m == "j" || m == "y" || m == "w" || m == "u"
 }
 
 func typedCodes(m string) int {
@@ -308,6 +329,8 @@ func typedLIS(strict bool, mode string, codes []int) string {
 		return typedRun(strict, collTable, codes)
 	case "j":
 		return typedRun(strict, extU64, codes)
+	case "y", "w", "u":
+		return typedLIS5(strict, mode, codes)
 	}
 	return typedRun(strict, extString, codes)
 }
@@ -503,7 +526,7 @@ func mutate(r *tr.Rand, base []int, k int) []int {
 }
 
 func main() {
-	tr.Main("C12: LCS over every pair of lists of 3 symbols up to length 4 (quick) / 5 (thorough) with key-only equality and position payloads (which element is returned is observable), the same pairs up to length 3 / 4 under two equivalences coarser than key identity, an asymmetric test (key(a) <= key(b): pins the argument order of eq) and a non-reflexive one (== at NaN), plain == over 2 symbols to length 6 / 7, random pairs derived from a common base by edits (long common runs, alphabets of 2-5 symbols, lengths to 49) under all six tests; LIS and LNDS over every list of 4 symbols up to length 6 (quick) / 8 (thorough) under natural, reversed and two coarse-preorder key comparisons (key/2, key%3: distinct keys tie, payloads tell them apart), and up to length 5 / 8 under difference-valued comparisons of several magnitudes (a-b, 3(a-b), 7(b-a), MinInt/MaxInt) and the cmp.Ordered wrappers, random lists with runs of equal keys, nearly sorted and nearly reversed (lengths to 60 / 99) under all ten comparisons. Every input slice is a window into a larger array (five shapes: cells before, spare capacity after); the whole backing arrays are compared before/after each call and again after the returned slice has been overwritten up to its capacity (m/a flags). Round 4: the same line forms once more behind preludes (P lines: a recovered panic inside eq / cmp at the first call, mid-way, in the last row or at the very last call, a much larger call that runs to its end; postludes between the call and the look at its result; pools emptied before each); LCS of two views of ONE array (identical, either a prefix of the other, same end, nested, overlapping, disjoint) under all six tests; []string of pairs with equal 32-bit hashes (FNV-1/1a, CRC-32, Adler-32, 31/33-polynomials, sdbm) through LCS, LIS and LNDS, []uint64 around 2^53 and 2^63, ints above 2^53, nil inputs; run-length sweeps for LIS and LNDS (a run of exactly L, a lower run of L, one element in between; ascending, plateaus, staircases; natural and reversed): every L to 256, every fourth L to 600 plus the multiples of 64 and 100 (thorough: every L to 600 in every shape), sizes 2^k-1, 2^k, 2^k+1 to 1025 (2049). A case is non-trivial when an input contains a repeated key; distinct = distinct input lines.",
+	tr.Main("C12: LCS over every pair of lists of 3 symbols up to length 4 (quick) / 5 (thorough) with key-only equality and position payloads (which element is returned is observable), the same pairs up to length 3 / 4 under two equivalences coarser than key identity, an asymmetric test (key(a) <= key(b): pins the argument order of eq) and a non-reflexive one (== at NaN), plain == over 2 symbols to length 6 / 7, random pairs derived from a common base by edits (long common runs, alphabets of 2-5 symbols, lengths to 49) under all six tests; LIS and LNDS over every list of 4 symbols up to length 6 (quick) / 8 (thorough) under natural, reversed and two coarse-preorder key comparisons (key/2, key%3: distinct keys tie, payloads tell them apart), and up to length 5 / 8 under difference-valued comparisons of several magnitudes (a-b, 3(a-b), 7(b-a), MinInt/MaxInt) and the cmp.Ordered wrappers, random lists with runs of equal keys, nearly sorted and nearly reversed (lengths to 60 / 99) under all ten comparisons. Every input slice is a window into a larger array (five shapes: cells before, spare capacity after); the whole backing arrays are compared before/after each call and again after the returned slice has been overwritten up to its capacity (m/a flags). Round 4: the same line forms once more behind preludes (P lines: a recovered panic inside eq / cmp at the first call, mid-way, in the last row or at the very last call, a much larger call that runs to its end; postludes between the call and the look at its result; pools emptied before each); LCS of two views of ONE array (identical, either a prefix of the other, same end, nested, overlapping, disjoint) under all six tests; []string of pairs with equal 32-bit hashes (FNV-1/1a, CRC-32, Adler-32, 31/33-polynomials, sdbm) through LCS, LIS and LNDS, []uint64 around 2^53 and 2^63, ints above 2^53, nil inputs; run-length sweeps for LIS and LNDS (a run of exactly L, a lower run of L, one element in between; ascending, plateaus, staircases; natural and reversed): every L to 256, every fourth L to 600 plus the multiples of 64 and 100 (thorough: every L to 600 in every shape), sizes 2^k-1, 2^k, 2^k+1 to 1025 (2049). Round 5: LCS with BOTH inputs long -- every L in 0..300 against L, L+1, L-1 and 2L (either order) in two of seven shapes per pair (all equal; the same distinct elements, every element twice on the longer side; exactly one common element; random; derived from a common base; one side reversed; periodic -- thorough: all seven) under all six tests; a duplicate-free side of every length 1..100 (300) against the same sequence with ONE key twice (in place, a few places later, at either end), both argument orders; two views of one array of every length 0..300 (s and s[:k] in both orders, two adjacent halves); lines above 65 x 130 elements (S, T) are judged by the property alone with the reference table written on arrays and are not replayed on the model; LIS / LNDS of recipe-made inputs (G: ascending, descending, one plateau, plateaus of 256, sawtooth, pseudo-random, two interleaved runs; the last element above everything / a new minimum / in the middle / untouched) of every length to 150 and of exactly 2^15, 2^16-1, 2^16, 2^16+1 elements (thorough: also 2^8, 2^12, 2^15 +-1, every base and ending), records bounded (length, digest, positions as runs), optimum by an O(n log n) reference; calls back into the package from inside the case's own eq / cmp (P @j:...), complete or panicking inside and recovered there; the cmp.Ordered wrappers on []byte, []int16 and []float32 (both zeros, NaN, infinities), LCS on []byte, []bool, []float32, a 40-byte struct and pointers; every other int line through a named slice type. A case is non-trivial when an input contains a repeated key; distinct = distinct input lines.",
 		exec, func(g *tr.G) {
 			if g.Prop != "C12" {
 				return
@@ -511,6 +534,7 @@ func main() {
 			// round 4, first: cases behind preludes (round4.go; first, while the heap is small: every
 			// one of them starts with two garbage collections)
 			genPreludes(g)
+			genNested(g) // round 5: calls made from inside the case's own callback (round5.go)
 			// ---- LCS, exhaustive
 			var lists3, lists2 [][]int
 			allLists(3, g.Scale(4, 5), func(ks []int) { lists3 = append(lists3, slices.Clone(ks)) })
@@ -612,5 +636,8 @@ func main() {
 			}
 			// round 4: views of one array, colliding strings, run-length sweeps, sizes (round4.go)
 			round4(g)
+			// round 5: two-sided sweeps, one repeated key, shared storage at every length, exact large
+			// sizes, re-entrant callbacks, more element types (round5.go)
+			round5(g)
 		})
 }
